@@ -75,4 +75,7 @@ def units(ctx):
            for c in utils.prealloc_contracts()]
     us += [contract_unit(c, world_setup=runner.setup_call)
            for c in runner.call_contracts()]
+    from contracts import utils as _ut
+    from vlib.pyvc.unit import contract_unit as _cu2
+    us += [_cu2(c, world_setup=_ut.setup) for c in _ut.predicate_contracts()]
     return us
